@@ -42,8 +42,11 @@ type checkRunner struct {
 
 	checkedRcpts         []string
 	checkedRcptsPerCheck map[module.CheckState]map[string]struct{}
-	checkedRcptsLock     sync.Mutex
-	checkedBody          map[module.CheckState]struct{}
+	// Rejections returned by CheckRcpt, repeated if the client names a refused
+	// recipient again (protected by checkedRcptsLock).
+	rejectedRcpts    map[module.CheckState]map[string]module.CheckResult
+	checkedRcptsLock sync.Mutex
+	checkedBody      map[module.CheckState]struct{}
 
 	resolver      dns.Resolver
 	doDMARC       bool
@@ -61,6 +64,7 @@ func newCheckRunner(msgMeta *module.MsgMetadata, log log.Logger, r dns.Resolver)
 	return &checkRunner{
 		msgMeta:              msgMeta,
 		checkedRcptsPerCheck: map[module.CheckState]map[string]struct{}{},
+		rejectedRcpts:        map[module.CheckState]map[string]module.CheckResult{},
 		checkedBody:          map[module.CheckState]struct{}{},
 		log:                  log,
 		resolver:             r,
@@ -256,8 +260,11 @@ func (cr *checkRunner) checkRcpt(ctx context.Context, checks []module.Check, rcp
 	err = cr.runAndMergeResults(states, func(s module.CheckState) module.CheckResult {
 		cr.checkedRcptsLock.Lock()
 		if _, ok := cr.checkedRcptsPerCheck[s][rcptTo]; ok {
+			// Not calling the check again does not mean that the recipient
+			// it refused is acceptable now.
+			res := cr.rejectedRcpts[s][rcptTo]
 			cr.checkedRcptsLock.Unlock()
-			return module.CheckResult{}
+			return res
 		}
 		if cr.checkedRcptsPerCheck[s] == nil {
 			cr.checkedRcptsPerCheck[s] = make(map[string]struct{})
@@ -266,6 +273,14 @@ func (cr *checkRunner) checkRcpt(ctx context.Context, checks []module.Check, rcp
 		cr.checkedRcptsLock.Unlock()
 
 		res := s.CheckRcpt(ctx, rcptTo)
+		if res.Reject {
+			cr.checkedRcptsLock.Lock()
+			if cr.rejectedRcpts[s] == nil {
+				cr.rejectedRcpts[s] = make(map[string]module.CheckResult)
+			}
+			cr.rejectedRcpts[s][rcptTo] = res
+			cr.checkedRcptsLock.Unlock()
+		}
 		return res
 	})
 
